@@ -75,6 +75,12 @@ def check_droplet_tracker(ctx: Ctx):
     for opt in OPTIONS:
         s = stored.get(opt)
         ok = s is not None and U(s.value) == opt and opt in init.all_params
+        if ok:
+            # … and the parameter still holds the caller's value there: no statement of the constructor rebinds it (rounding an odd
+            # mode count up, clipping a radius) — the offline analysis is given the caller's value
+            rebound = [x for x in ast.walk(init.node) if isinstance(x, ast.Name) and x.id == opt and isinstance(x.ctx, ast.Store)]
+            if rebound:
+                ok = False
         ctx.decide(ok, "FORWARD", f"{init.qualname}:{opt}", (init, s) if s is not None else init, f"constructor stores `{opt}` as given",
                    f"constructor parameter `{opt}` is not stored unchanged in self.{opt}")
         kw = ALIASES.get(opt, opt)
@@ -395,6 +401,9 @@ def check(ctx: Ctx):
     io.check_timecourse_time(ctx)
     io.check_pair_iteration(ctx)
     io.check_file_modes(ctx)
+    # "equals the offline analysis" is judged with the droplets' own equality: it must be exact and treat the NaN of an unset
+    # interface width as equal to itself (unrefined perturbed droplets carry NaN widths)
+    io.check_exact_eq(ctx)
     from ..rules import support as _sup14
 
     _sup14.check_text_file_modes(ctx, ("droplets.trackers.LengthScaleTracker.finalize",))
